@@ -166,6 +166,15 @@ func New(c *cat.Catalog, o cat.Opts) *Runner {
 	return r
 }
 
+// scopeRealName is the name scope s is created under. In half of the catalogs every scope gets
+// the same name: a name identifies nothing, siblings that share one are still two scopes.
+func (r *Runner) scopeRealName(s string) string {
+	if len(r.Cat.Note)%2 == 0 {
+		return "sub"
+	}
+	return s
+}
+
 // SetPlan records the planned outcome of execution n of f.
 func (r *Runner) SetPlan(f string, n int, o string) { r.Plan[planKey{f, n}] = o }
 
@@ -683,7 +692,7 @@ func (r *Runner) Do(op, f, s string) (*Entry, error) {
 			return nil, err
 		}
 		r.inReg, r.regExec = true, false
-		_, crash := guard(func() { r.scopes[s] = par.Scope(s) })
+		_, crash := guard(func() { r.scopes[s] = par.Scope(r.scopeRealName(s)) })
 		r.inReg = false
 		e.V, e.Crash = "ok", crash
 		if r.regExec {
